@@ -77,8 +77,14 @@ def pd_code(ap, sg):
 
 
 def pd_split(code):
-    k = code - PD_BASE
+    k = (code - PD_BASE) % 10
     return AP_KINDS[k // 2], bool(k % 2)
+
+
+def pd_after(code):
+    """how many of the components behind a digest code belong to the Interest it was computed for (a caller-supplied
+    placeholder in the middle of the name: code + 10 * that number; 0 = the digest ends the Interest name)"""
+    return (code - PD_BASE) // 10
 
 
 def has_pd(spec):
@@ -93,7 +99,7 @@ def eff_name(spec):
     c = pd_code(spec.get('ap'), spec.get('sg'))
     if spec.get('php') is not None:
         k = spec['php']
-        return list(spec['name'][:k]) + [c] + list(spec['name'][k:])
+        return list(spec['name'][:k]) + [c + 10 * len(spec['name'][k:])] + list(spec['name'][k:])
     return list(spec['name']) + [c]
 
 
@@ -156,6 +162,9 @@ def gen_history(rng, fe, n_events=None, p_ap=0.10, p_burst=0.03, p_odd=0.02, p_d
             else:
                 s['ap'], s['sg'] = rng.choice([('e', True), ('p', True), ('p', False), ('e', False), (None, True)])
             s['dig'] = None
+            if rng.random() < 0.2:
+                # the caller supplies the digest placeholder itself (fixed in /repo: final name carries the digest)
+                s['php'] = rng.randrange(len(nm) + 1)
             # the Data that answers it, and sometimes the answer to the same name with other parameters
             full = eff_name(s)
             if not any(d['name'] == full for d in datas):
@@ -185,6 +194,8 @@ def gen_history(rng, fe, n_events=None, p_ap=0.10, p_burst=0.03, p_odd=0.02, p_d
         else:
             nm, dig = rng.choice(NAMES), rng.choice([None, None, -1, 0])
         reason = rng.choice(NACK_REASONS) if rng.random() < 0.8 else rng.choice(NACK_ODD)
+        if rng.random() < 0.08:
+            return ['n', nm, dig, 0, 'bare']
         return ['n', nm, dig, reason]
 
     def a_data():
@@ -389,12 +400,14 @@ def pd_digest(enc, base, code):
 
 
 def mk_name(enc, comps, digest=None):
-    base = [enc.Component.from_str('c%d' % c) for c in comps if c < PD_BASE]
     nm = []
-    for c in comps:
+    for i, c in enumerate(comps):
         if c < PD_BASE:
             nm.append(enc.Component.from_str('c%d' % c))
         else:
+            # the digest of the Interest whose name is what precedes the code (+ pd_after(c) components behind it)
+            base = [enc.Component.from_str('c%d' % x)
+                    for x in list(comps[:i]) + list(comps[i + 1:i + 1 + pd_after(c)]) if x < PD_BASE]
             nm.append(enc.Component.from_bytes(pd_digest(enc, base, c), enc.Component.TYPE_PARAMETERS_SHA256))
     if digest is not None:
         nm.append(enc.Component.from_bytes(digest, enc.Component.TYPE_IMPLICIT_SHA256))
@@ -412,7 +425,13 @@ def mk_interest_wire(enc, Signer, comps, digest=None):
     nm = [ph if c >= PD_BASE else enc.Component.from_str('c%d' % c) for c in comps]
     if digest is not None:
         nm.append(enc.Component.from_bytes(digest, enc.Component.TYPE_IMPLICIT_SHA256))
-    return bytes(enc.make_interest(nm, par, AP_BYTES[ap] if ap else None, signer=Signer() if sg else None))
+    w = bytes(enc.make_interest(nm, par, AP_BYTES[ap] if ap else None, signer=Signer() if sg else None))
+    # the digest component is the one mk_name gives this code (they differ only for names no real Interest has:
+    # components behind the digest that the digest does not cover)
+    i = next(j for j, c in enumerate(comps) if c >= PD_BASE)
+    got = bytes(enc.parse_interest(w)[0][i])
+    want = bytes(mk_name(enc, comps)[i])
+    return w.replace(got, want, 1) if got != want else w
 
 
 def lp_wrap(ndnlp, wire):
@@ -566,7 +585,9 @@ class Run:
                 return None
             return lp_wrap(ndnlp, self.wires[p[1]]) if len(p) > 2 and p[2] == 'lp' else self.wires[p[1]]
         _, _, _, Signer = _lib()
-        return mk_nack(enc, ndnlp, mk_interest_wire(enc, Signer, p[1], self.digest_of(p[2])), p[3])
+        # ['n', name, dig, 0, 'bare']: the Nack header carries no NackReason element (NDNLPv2: reason None = 0)
+        return mk_nack(enc, ndnlp, mk_interest_wire(enc, Signer, p[1], self.digest_of(p[2])),
+                       None if len(p) > 4 and p[4] == 'bare' else p[3])
 
     def pit(self):
         app = self.rig.app
